@@ -99,9 +99,9 @@ Lemma clause_and_char : gen_clause_and = true.
 Proof. reflexivity. Qed.
 
 (* ---------------------------------------------------------------- count() *)
-(* three facts about the generated count(), each proved by running it on every
-   shape of (start, end); the first two also hold once the empty-window defect
-   is repaired, the third one is the defect *)
+(* two facts about the generated count(), each proved by running it on every
+   shape of (start, end): without a window it answers the database's number,
+   with any window -- the empty one [..:0] included since ce48805 -- it is refused *)
 Ltac run_count_tac :=
   unfold gen_count, bind, py_sub, py_min, py_or, py_not, py_is_none, toZ;
   repeat match goal with
@@ -130,24 +130,15 @@ Proof.
     destruct d; run_count_tac.
 Qed.
 
-(* a non-zero bound: refused *)
+(* any window: refused *)
 Lemma count_refused_char ws we d cs cd :
-  truthy ws || truthy we = true ->
+  sliced (ws, we) = true ->
   gen_count ws we (VBool d) (VInt cs) (VInt cd) = Err E_Assert.
 Proof.
+  unfold sliced. cbn [fst snd].
   destruct ws as [|z|b], we as [|z'|b']; cbn [truthy orb]; intros H; try discriminate;
     try (destruct b); try (destruct b'); try discriminate;
     destruct d; run_count_tac.
-Qed.
-
-(* THE DEFECT (finding count_ignores_empty_window): end = 0 passes the
-   truthiness assertions and the arithmetic after them is skipped as well *)
-Lemma count_empty_window_char ws cs cd :
-  truthy ws = false ->
-  gen_count ws (VInt 0) (VBool false) (VInt cs) (VInt cd) = Ok (VInt cs).
-Proof.
-  destruct ws as [|z|b]; cbn [truthy]; intros H; [|destruct (z =? 0) eqn:E; [|discriminate]|subst b];
-    run_count_tac.
 Qed.
 
 (* ---------------------------------------------------------------- getOne() *)
